@@ -18,7 +18,7 @@ def main():
     rep = Report("C10", a.tier, "model_checking")
     quick = a.tier == "quick"
     sel = (lambda m, p: a.only in p.name()) if a.only else None
-    edges = collect_edges(MODULES, a.tier, cap=32 if quick else 128, ops=OPS, depth2=3 if quick else 12,
+    edges = collect_edges(MODULES, a.tier, cap=16 if quick else 128, ops=OPS, depth2=2 if quick else 12,
                           select=sel, nshards=6)
     # configuration-touching programs of corpus A as well
     edges += collect_edges(["harness.corpus.basic"], a.tier, cap=24 if quick else 96, ops=OPS, depth2=1 if quick else 6,
